@@ -38,6 +38,8 @@ pub enum ModelParseError {
 
     #[error("USE_GV is true, but positions for GV is not set")]
     UseGvError,
+    #[error("The header is inconsistent with the data section")]
+    InvalidHeader,
 
     #[error("Failed to parse question: {0}")]
     QuestionParseError(#[from] jlabel_question::ParseError),
@@ -153,9 +155,12 @@ fn parse_data_section(
                 .stream_win
                 .iter()
                 .map(|win| {
+                    let section = input
+                        .get(win.0..=win.1)
+                        .ok_or(ModelParseError::InvalidHeader)?;
                     Ok(
                         all_consuming(terminated(WindowParser::parse_window_row, ParseTarget::sp))
-                            .parse(&input[win.0..=win.1])?
+                            .parse(section)?
                             .1,
                     )
                 })
@@ -183,7 +188,19 @@ where
 {
     use nom::combinator::all_consuming;
 
-    move |input: &'a [u8]| all_consuming(f).parse(&input[range.0..range.1 + 1])
+    move |input: &'a [u8]| {
+        let section = range
+            .1
+            .checked_add(1)
+            .and_then(|end| input.get(range.0..end))
+            .ok_or_else(|| {
+                nom::Err::Error(F::Error::from_error_kind(
+                    input,
+                    nom::error::ErrorKind::Eof,
+                ))
+            })?;
+        all_consuming(f).parse(section)
+    }
 }
 
 #[cfg(test)]
